@@ -247,6 +247,14 @@ func features(o *Obs) map[string]string {
 	if c.name() == "new_task" || c.name() == "set" {
 		f["epicarg"] = classify(c.str("epic"))
 	}
+	if c.name() == "new_task" {
+		if c.has("state") || c.has("claim") || c.has("rpath") {
+			f["newtask.followup"] = "yes"
+		} else {
+			f["newtask.followup"] = "no"
+		}
+	}
+	f["diff"] = viewDiff(o.Pre, o.Post)
 	if c.name() == "sequence" {
 		f["chain"] = fmt.Sprint(len(c.strs("ids")))
 	}
@@ -406,7 +414,55 @@ func (out *Outcome) report() int {
 		}
 		p := writeReplay(out.Property, v)
 		fmt.Printf("VIOLATION property=%s replay=%s\n", out.Property, p)
-		fmt.Fprintf(os.Stderr, "  clause %s failed on %s\n", v.Clause, v.Obs.describe())
+		fmt.Fprintf(os.Stderr, "  clause %s failed on %s\n  features: %v\n", v.Clause, v.Obs.describe(), features(v.Obs))
 	}
 	return 1
+}
+
+// viewDiff names what differs between two views: "" (nothing), "+items" /
+// "-items" for created / removed ids, and the names of changed fields
+// (timestamps and the derived ready/blocked flags are ignored).
+func viewDiff(pre, post map[string]any) string {
+	set := map[string]bool{}
+	for id := range post {
+		if _, ok := pre[id]; !ok {
+			set["+items"] = true
+		}
+	}
+	for id, a := range pre {
+		b, ok := post[id]
+		if !ok {
+			set["-items"] = true
+			continue
+		}
+		x, _ := a.(viewItem)
+		y, _ := b.(viewItem)
+		if x.State != y.State {
+			set["state"] = true
+		}
+		if x.Claim != y.Claim {
+			set["claim"] = true
+		}
+		if x.Epic != y.Epic {
+			set["epic"] = true
+		}
+		if x.Title != y.Title {
+			set["title"] = true
+		}
+		if x.Body != y.Body {
+			set["body"] = true
+		}
+		if fmt.Sprint(x.Deps) != fmt.Sprint(y.Deps) || fmt.Sprint(x.RDeps) != fmt.Sprint(y.RDeps) {
+			set["deps"] = true
+		}
+		if len(x.Results) != len(y.Results) {
+			set["results"] = true
+		}
+	}
+	var names []string
+	for k := range set {
+		names = append(names, k)
+	}
+	sort.Strings(names)
+	return strings.Join(names, ",")
 }
